@@ -102,20 +102,6 @@ EXPORT errno_t _wcsstr_s_chk(wchar_t *restrict dest, rsize_t dmax,
         CHK_DESTW_OVR("wcsstr_s", destsz, destbos)
     }
 
-    /*
-     * src points to a string with zero length, or
-     * src equals dest, return dest
-     */
-    if (unlikely(*src == '\0' || dest == src)) {
-        *substringp = dest;
-        return RCNEGATE(EOK);
-    }
-
-    if (unlikely(slen == 0)) {
-        invoke_safe_str_constraint_handler("wcsstr_s: slen is 0", (void *)dest,
-                                           ESZEROL);
-        return RCNEGATE(ESZEROL);
-    }
     if (unlikely(slen > RSIZE_MAX_WSTR)) {
         invoke_safe_str_constraint_handler("wcsstr_s: slen exceeds max",
                                            (void *)dest, ESLEMAX);
@@ -129,6 +115,21 @@ EXPORT errno_t _wcsstr_s_chk(wchar_t *restrict dest, rsize_t dmax,
                                                (void *)dest, EOVERFLOW);
             return RCNEGATE(EOVERFLOW);
         }
+    }
+
+    /*
+     * src points to a string with zero length, or
+     * src equals dest, return dest
+     */
+    if (unlikely(*src == '\0' || dest == src)) {
+        *substringp = dest;
+        return RCNEGATE(EOK);
+    }
+
+    if (unlikely(slen == 0)) {
+        invoke_safe_str_constraint_handler("wcsstr_s: slen is 0", (void *)dest,
+                                           ESZEROL);
+        return RCNEGATE(ESZEROL);
     }
 
     while (dmax && *dest) {
